@@ -23,6 +23,9 @@
  *              e = fail with EINTR, nothing transferred
  *              x = fail hard with errno <arg>; sticky for the class
  *              y = fail hard with errno <arg> on this call only (a one-off EIO)
+ *              K = the process is killed (SIGKILL) at this call: <arg> bytes of the request are transferred first (0 = none)
+ *   FMLSIM_CLOCK_S=<seconds> added to every scripted reading (years beyond what fits into 64-bit nanoseconds: 2262, 2554)
+ *   FMLSIM_AS=<bytes>        address-space rlimit of the child instead of the default 12 GiB (a container's memory limit, ulimit -v)
  */
 #define _GNU_SOURCE
 #include <errno.h>
@@ -38,6 +41,7 @@
 #include <sys/uio.h>
 #include <time.h>
 #include <unistd.h>
+#include <signal.h>
 
 #define MAX_PLAN 4096
 #define MAX_JUMPS 256
@@ -58,6 +62,7 @@ static struct { long n; int64_t delta; } jumps[MAX_JUMPS];
 static int jump_len = 0;
 static int initialised = 0;
 static int inert = 0;
+static int64_t clock_extra_s = 0;
 
 static uint64_t splitmix(void) {
     uint64_t z = (rnd_state += 0x9E3779B97F4A7C15ull);
@@ -104,8 +109,11 @@ static void init(void) {
         rl.rlim_max = rl.rlim_cur + 2;
         setrlimit(RLIMIT_CPU, &rl);
         rl.rlim_cur = rl.rlim_max = (rlim_t)12 << 30;
+        const char *as = getenv("FMLSIM_AS");
+        if (as && *as) rl.rlim_cur = rl.rlim_max = (rlim_t)strtoull(as, NULL, 10);
         setrlimit(RLIMIT_AS, &rl);
     }
+    if ((s = getenv("FMLSIM_CLOCK_S")) && *s) clock_extra_s = strtoll(s, NULL, 10);
     if ((s = getenv("FMLSIM_TRACE")) && *s) {
         int fd = open(s, O_WRONLY | O_CREAT | O_APPEND | O_CLOEXEC, 0644);
         if (fd >= 0) {
@@ -172,6 +180,7 @@ __attribute__((constructor)) static void ctor(void) { init(); }
 
 /* Decide the outcome for call number `n` of class `c` asking for `len` bytes.
  * Returns: >0 bytes to transfer, 0 = pass `len` through unchanged, <0 = -errno. */
+static long kill_after = 0;
 static long decide(int c, long n, size_t len) {
     if (dead_errno[c]) return -dead_errno[c];
     long allowed = (long)len;
@@ -182,6 +191,7 @@ static long decide(int c, long n, size_t len) {
         case 'e': if (plan[k].idx == n) return -EINTR; break;
         case 'x': dead_errno[c] = plan[k].arg > 0 ? (int)plan[k].arg : EIO; return -dead_errno[c];
         case 'y': if (plan[k].idx == n) return -(plan[k].arg > 0 ? (int)plan[k].arg : EIO); break;
+        case 'K': if (plan[k].idx == n) { kill_after = plan[k].arg < 0 ? 0 : plan[k].arg; if (kill_after > (long)len) kill_after = (long)len; return -100000; } break;
         case 's': if (len > 1) { long a = plan[k].arg < 1 ? 1 : plan[k].arg; if (a > (long)len - 1) a = (long)len - 1; if (a < allowed) allowed = a; } break;
         case 'b': if (len > 1 && (long)len - 1 < allowed) allowed = (long)len - 1; break;
         case 'l': { long a = plan[k].arg < 1 ? 1 : plan[k].arg; if (a < allowed) allowed = a; } break;
@@ -209,6 +219,12 @@ ssize_t write(int fd, const void *buf, size_t len) {
     if (over_budget()) { errno = EIO; return -1; }
     if (len == 0) { trace("W %c %ld 0 -> 0\n", CLS[c], n); return syscall(SYS_write, fd, buf, len); }
     long d = decide(c, n, len);
+    if (d == -100000) {
+        if (kill_after > 0) { long r0 = syscall(SYS_write, fd, buf, (size_t)kill_after); (void)r0; }
+        trace("W %c %ld %zu -> KILLED after %ld\n", CLS[c], n, len, kill_after);
+        syscall(SYS_kill, syscall(SYS_getpid), 9);
+        for (;;) pause();
+    }
     if (d < 0) { trace("W %c %ld %zu -> E%ld\n", CLS[c], n, len, -d); errno = (int)-d; return -1; }
     long r = syscall(SYS_write, fd, buf, (size_t)d);
     trace("W %c %ld %zu -> %ld%s\n", CLS[c], n, len, r, (size_t)d < len ? " short" : "");
@@ -224,6 +240,7 @@ ssize_t read(int fd, void *buf, size_t len) {
     if (over_budget()) { errno = EIO; return -1; }
     if (len == 0) { trace("R %c %ld 0 -> 0\n", CLS[c], n); return syscall(SYS_read, fd, buf, len); }
     long d = decide(c, n, len);
+    if (d == -100000) { trace("R %c %ld %zu -> KILLED\n", CLS[c], n, len); syscall(SYS_kill, syscall(SYS_getpid), 9); for (;;) pause(); }
     if (d < 0) { trace("R %c %ld %zu -> E%ld\n", CLS[c], n, len, -d); errno = (int)-d; return -1; }
     long r = syscall(SYS_read, fd, buf, (size_t)d);
     trace("R %c %ld %zu -> %ld%s\n", CLS[c], n, len, r, (size_t)d < len ? " cut" : "");
@@ -283,7 +300,7 @@ int clock_gettime(clockid_t id, struct timespec *ts) {
     init();
     if (!inert && have_clock && id == CLOCK_REALTIME) {
         int64_t t = scripted_now();
-        ts->tv_sec = t / 1000000000ll;
+        ts->tv_sec = t / 1000000000ll + clock_extra_s;
         ts->tv_nsec = t % 1000000000ll;
         return 0;
     }
@@ -295,7 +312,7 @@ int gettimeofday(struct timeval *tv, void *tz) {
     (void)tz;
     if (!inert && have_clock) {
         int64_t t = scripted_now();
-        if (tv) { tv->tv_sec = t / 1000000000ll; tv->tv_usec = (t % 1000000000ll) / 1000; }
+        if (tv) { tv->tv_sec = t / 1000000000ll + clock_extra_s; tv->tv_usec = (t % 1000000000ll) / 1000; }
         return 0;
     }
     return (int)syscall(SYS_gettimeofday, tv, tz);
@@ -304,7 +321,7 @@ int gettimeofday(struct timeval *tv, void *tz) {
 time_t time(time_t *out) {
     init();
     if (!inert && have_clock) {
-        time_t t = (time_t)(scripted_now() / 1000000000ll);
+        time_t t = (time_t)(scripted_now() / 1000000000ll + clock_extra_s);
         if (out) *out = t;
         return t;
     }
